@@ -74,12 +74,45 @@ func CongruenceProbe(newInst func() Instance, describe func(uint32) string, maxS
 				}
 				compared++
 				if s := sig(np, depth); s != r.sig && len(bad) < 5 {
-					bad = append(bad, fmt.Sprintf("same canonical state, different futures:\n A: %v\n B: %v\n futures A: %.1500s\n futures B: %.1500s",
-						PathString(r.path, describe), PathString(np, describe), r.sig, s))
+					bad = append(bad, fmt.Sprintf("same canonical state, different futures:\n A: %v\n B: %v\n only in A: %.1200s\n only in B: %.1200s",
+						PathString(r.path, describe), PathString(np, describe), sigDiff(r.sig, s), sigDiff(s, r.sig)))
 				}
 			}
 		}
 		frontier = next
 	}
 	return len(seen), compared, bad
+}
+
+// sigDiff lists the top-level items of signature a that are missing in b.
+func sigDiff(a, b string) string {
+	split := func(s string) []string {
+		var out []string
+		depth, start := 0, 0
+		for i := 0; i < len(s); i++ {
+			switch s[i] {
+			case '{':
+				depth++
+			case '}':
+				depth--
+			case ';':
+				if depth == 0 {
+					out = append(out, s[start:i])
+					start = i + 1
+				}
+			}
+		}
+		return out
+	}
+	in := map[string]bool{}
+	for _, x := range split(b) {
+		in[x] = true
+	}
+	out := ""
+	for _, x := range split(a) {
+		if !in[x] {
+			out += x + " ; "
+		}
+	}
+	return out
 }
